@@ -412,9 +412,10 @@ type LexToken struct {
 
 // RefLexer interprets a lexer grammar.
 type RefLexer struct {
-	G    *Grammar
-	memo map[[3]int]map[int]bool
-	in   []rune
+	G     *Grammar
+	memo  map[[3]int]map[int]bool
+	in    []rune
+	reach int // furthest position consumed by any partial match (viable prefix), for error recovery
 }
 
 func NewRefLexer(g *Grammar) *RefLexer { return &RefLexer{G: g} }
@@ -444,29 +445,37 @@ func (l *RefLexer) altsEnds(alts []*Alt, pos int) map[int]bool {
 }
 
 // matchOne: end positions of one occurrence of e (ignoring its suffix).
+func (l *RefLexer) touch(p int) {
+	if p > l.reach {
+		l.reach = p
+	}
+}
+
 func (l *RefLexer) matchOne(e *Elem, pos int) map[int]bool {
 	out := map[int]bool{}
 	switch e.Kind {
 	case ELiteral:
 		rs := []rune(e.Lit)
-		if pos+len(rs) <= len(l.in) {
-			for i, r := range rs {
-				if l.in[pos+i] != r {
-					return out
-				}
+		for i, r := range rs {
+			if pos+i >= len(l.in) || l.in[pos+i] != r {
+				return out
 			}
-			out[pos+len(rs)] = true
+			l.touch(pos + i + 1)
 		}
+		out[pos+len(rs)] = true
 	case ERange:
 		if pos < len(l.in) && l.in[pos] >= e.Lo && l.in[pos] <= e.Hi {
+			l.touch(pos + 1)
 			out[pos+1] = true
 		}
 	case EAny:
 		if pos < len(l.in) {
+			l.touch(pos + 1)
 			out[pos+1] = true
 		}
 	case ENot:
 		if pos < len(l.in) && !l.charIn(e.Sub, l.in[pos]) {
+			l.touch(pos + 1)
 			out[pos+1] = true
 		}
 	case EBlock:
@@ -611,8 +620,21 @@ func (l *RefLexer) Lex(text string) (toks []LexToken, errs []int, undecided bool
 			}
 		}
 		if best == nil {
+			// ANTLR's lexer has consumed every character for which some rule was still alive; recovery then
+			// drops the character on which the last configuration died as well
 			errs = append(errs, pos)
-			pos++
+			l.memo = map[[3]int]map[int]bool{}
+			l.reach = pos
+			for _, r := range l.G.Rules {
+				if !r.Fragment && r.Mode == mode {
+					l.ruleEnds(r, pos)
+				}
+			}
+			l.memo = map[[3]int]map[int]bool{}
+			pos = l.reach
+			if pos < len(l.in) {
+				pos++
+			}
 			continue
 		}
 		if hasNonGreedy(l.G, best, map[string]bool{}) {
